@@ -278,3 +278,107 @@ func sortStrings(ss []string) {
 		}
 	}
 }
+
+// ---------- io.Copy family (streams between modelled files and interpreted readers/writers) ----------
+
+// callIfaceMethod calls method name on the dynamic value of an interface (external or interpreted).
+func callIfaceMethod(fr *Frame, x Iface, name string, args ...Value) Value {
+	it := fr.it
+	if x.T == nil {
+		it.rtPanic("invalid memory address or nil pointer dereference (method call on nil interface)")
+	}
+	sel := it.P.Prog.MethodSets.MethodSet(x.T).Lookup(nil, name)
+	if sel == nil {
+		// unexported / embedded lookups need the package; the io interfaces only have exported methods
+		panic(abort{st: StUnsupported, msg: fmt.Sprintf("io copy: %s has no method %s", x.T, name)})
+	}
+	fn := it.P.Prog.MethodValue(sel)
+	return call(it, fr, 0, fn, append([]Value{x.V}, args...))
+}
+
+func ioCopy(fr *Frame, dst, src Iface, limit int64) Value {
+	it := fr.it
+	var total uint64
+	for rounds := 0; rounds < 1<<16; rounds++ {
+		sz := 4096
+		if limit >= 0 && int64(sz) > limit-int64(total) {
+			sz = int(limit - int64(total))
+		}
+		if sz == 0 {
+			break
+		}
+		buf := make([]Value, sz)
+		for i := range buf {
+			buf[i] = uint64(0)
+		}
+		r := callIfaceMethod(fr, src, "Read", buf).(Tuple)
+		n := int(it.concInt(r[0], "io.Copy read count"))
+		if n > 0 {
+			w := callIfaceMethod(fr, dst, "Write", buf[:n:n]).(Tuple)
+			wn := it.concInt(w[0], "io.Copy write count")
+			if wn > 0 {
+				total += uint64(wn)
+			}
+			if e := w[1].(Iface); e.T != nil {
+				return Tuple{total, e}
+			}
+			if int(wn) != n {
+				return Tuple{total, it.env.errVal("short write")}
+			}
+		}
+		if e := r[1].(Iface); e.T != nil {
+			eof := it.ioEOF()
+			if e.V == eof.V {
+				break
+			}
+			return Tuple{total, e}
+		}
+	}
+	return Tuple{total, Iface{}}
+}
+
+func init() {
+	externals["io.Copy"] = func(fr *Frame, a []Value) Value { return ioCopy(fr, a[0].(Iface), a[1].(Iface), -1) }
+	externals["io.CopyBuffer"] = func(fr *Frame, a []Value) Value { return ioCopy(fr, a[0].(Iface), a[1].(Iface), -1) }
+	externals["io.CopyN"] = func(fr *Frame, a []Value) Value {
+		n := fr.it.concInt(a[2], "io.CopyN n")
+		r := ioCopy(fr, a[0].(Iface), a[1].(Iface), n).(Tuple)
+		if int64(r[0].(uint64)) < n && r[1].(Iface).T == nil {
+			return Tuple{r[0], fr.it.ioEOF()}
+		}
+		return r
+	}
+	externals["io.ReadAll"] = func(fr *Frame, a []Value) Value {
+		it := fr.it
+		var out []Value
+		src := a[0].(Iface)
+		for rounds := 0; rounds < 1<<16; rounds++ {
+			buf := make([]Value, 512)
+			for i := range buf {
+				buf[i] = uint64(0)
+			}
+			r := callIfaceMethod(fr, src, "Read", buf).(Tuple)
+			n := int(it.concInt(r[0], "io.ReadAll read count"))
+			out = append(out, buf[:n]...)
+			if e := r[1].(Iface); e.T != nil {
+				if e.V == it.ioEOF().V {
+					break
+				}
+				return Tuple{out, e}
+			}
+		}
+		if out == nil {
+			out = []Value{}
+		}
+		return Tuple{out, Iface{}}
+	}
+	fileIface := func(fr *Frame, f Value) Iface {
+		return Iface{T: types.NewPointer(fr.it.namedType("os", "File")), V: f}
+	}
+	externals["(*os.File).WriteTo"] = func(fr *Frame, a []Value) Value {
+		return ioCopy(fr, a[1].(Iface), fileIface(fr, a[0]), -1)
+	}
+	externals["(*os.File).ReadFrom"] = func(fr *Frame, a []Value) Value {
+		return ioCopy(fr, fileIface(fr, a[0]), a[1].(Iface), -1)
+	}
+}
